@@ -59,7 +59,10 @@ func condSrc(c, d int) string {
 }
 
 // sets: 0 a = a + 1; 1 b = b ~ (innermost value | 'x'); 2 a = loop.index; 3 b = b ~ a
-func setSrc(v, d int) string {
+func setSrc(v, d int, doForm bool) string {
+	if doForm { // the assignment form of do: {% do name = expr %}
+		return "{% do " + strings.TrimPrefix(setSrc(v, d, false), "{% set ")
+	}
 	switch v {
 	case 0:
 		return "{% set a = a + 1 %}"
@@ -338,14 +341,35 @@ func probeSrc(keys []bool, loopOK bool) string {
 	return sb.String()
 }
 
-func printBody(sb *strings.Builder, b []*node, keys []bool, loopOK bool) {
-	p := probeSrc(keys, loopOK)
-	sb.WriteString(p)
+// mode: cModeAll — the full probe at the start of every body and after every statement of it;
+// cModeLate / cModeLateDo — inside loop bodies the loop.* part of the probe is printed only at the END
+// of each body (after its last statement; at the start only if the body is empty), every other probe
+// there prints just the loop variables and a, b: sets (cModeLateDo: in the do form) and ifs stand
+// before the body's reads of loop.*.
+const (
+	cModeAll = iota
+	cModeLate
+	cModeLateDo
+)
+
+func printBody(sb *strings.Builder, b []*node, keys []bool, loopOK bool, mode int) {
+	full := probeSrc(keys, loopOK)
+	plain := full
+	if mode != cModeAll && loopOK {
+		plain = probeSrc(keys, false)
+	}
+	at := func(done int) string { // probe after `done` statements of the body
+		if done == len(b) {
+			return full
+		}
+		return plain
+	}
+	sb.WriteString(at(0))
 	d := len(keys)
-	for _, s := range b {
+	for j, s := range b {
 		switch s.kind {
 		case 's':
-			sb.WriteString(setSrc(s.sv, d))
+			sb.WriteString(setSrc(s.sv, d, mode == cModeLateDo))
 		case 'i':
 			for i, c := range s.conds {
 				if i == 0 {
@@ -353,11 +377,11 @@ func printBody(sb *strings.Builder, b []*node, keys []bool, loopOK bool) {
 				} else {
 					sb.WriteString("{% elseif " + condSrc(c, d) + " %}")
 				}
-				printBody(sb, s.bodies[i], keys, loopOK)
+				printBody(sb, s.bodies[i], keys, loopOK, mode)
 			}
 			if s.hasElse {
 				sb.WriteString("{% else %}")
-				printBody(sb, s.els, keys, loopOK)
+				printBody(sb, s.els, keys, loopOK, mode)
 			}
 			sb.WriteString("{% endif %}")
 		case 'f':
@@ -367,14 +391,14 @@ func printBody(sb *strings.Builder, b []*node, keys []bool, loopOK bool) {
 			} else {
 				sb.WriteString("{% for v" + nd + " in " + seqSrcs[s.seq] + " %}")
 			}
-			printBody(sb, s.bodies[0], append(append([]bool{}, keys...), s.key), true)
+			printBody(sb, s.bodies[0], append(append([]bool{}, keys...), s.key), true, mode)
 			if s.hasElse {
 				sb.WriteString("{% else %}")
-				printBody(sb, s.els, keys, false)
+				printBody(sb, s.els, keys, false, mode)
 			}
 			sb.WriteString("{% endfor %}")
 		}
-		sb.WriteString(p)
+		sb.WriteString(at(j + 1))
 	}
 }
 
@@ -415,6 +439,7 @@ type machine struct {
 	elses  int // for-else branches rendered
 	depth  int // deepest loop nesting reached
 	budget int
+	mode   int // cModeAll / cModeLate / cModeLateDo: which probes print loop.*
 }
 
 func (m *machine) probe(loopOK bool) {
@@ -490,8 +515,8 @@ func (m *machine) seq(q int) []mval {
 }
 
 func (m *machine) run(b []*node, loopOK bool) {
-	m.probe(loopOK)
-	for _, s := range b {
+	m.probe(loopOK && (m.mode == cModeAll || len(b) == 0))
+	for j, s := range b {
 		if m.out.Len() > m.budget {
 			return
 		}
@@ -550,7 +575,7 @@ func (m *machine) run(b []*node, loopOK bool) {
 				m.loops = m.loops[:len(m.loops)-1]
 			}
 		}
-		m.probe(loopOK)
+		m.probe(loopOK && (m.mode == cModeAll || j == len(b)-1))
 	}
 }
 
@@ -577,11 +602,99 @@ func runC(t *vlib.T) {
 					kb.WriteByte('/')
 					encBody(&kb, body)
 					size := l.size
-					t.Case(kb.String(), func() *vlib.Outcome { return cCase(body, size) })
+					t.Case(kb.String(), func() *vlib.Outcome { return cCase(body, size, cModeAll) })
 				}
 			}
 		}
 	}
+}
+
+// ---- late-probe layers: the same trees, loop.* read only at the end of every loop-context body
+
+var cModeTag = map[int]string{cModeLate: "L", cModeLateDo: "D"}
+
+type cLateLayer struct {
+	al    alphabet
+	size  int
+	modes []int
+}
+
+func cLateLayers(th bool) []cLateLayer {
+	both := []int{cModeLate, cModeLateDo}
+	late := []int{cModeLate}
+	if th {
+		return []cLateLayer{{alphaFull, 1, both}, {alphaFull, 2, both}, {alphaFull, 3, late}, {alphaLow, 3, []int{cModeLateDo}}, {alphaLow, 4, late}}
+	}
+	return []cLateLayer{{alphaFull, 1, both}, {alphaFull, 2, both}, {alphaLow, 3, both}, {alphaTiny, 4, late}}
+}
+
+// hasLoopBody: some for statement of the tree has a non-empty body (otherwise the late modes print
+// the same program as cModeAll, up to the form of the sets)
+func hasLoopBody(b []*node) bool {
+	for _, s := range b {
+		switch s.kind {
+		case 'i':
+			for _, x := range s.bodies {
+				if hasLoopBody(x) {
+					return true
+				}
+			}
+			if hasLoopBody(s.els) {
+				return true
+			}
+		case 'f':
+			if len(s.bodies[0]) > 0 || hasLoopBody(s.els) {
+				return true
+			}
+		}
+	}
+	return false
+}
+
+func cLateEach(th bool, stopped func() bool, emit func(key string, body []*node, size, mode int)) {
+	for _, l := range cLateLayers(th) {
+		g := newGen(l.al)
+		top := gctx{0, false}
+		for first := 1; first <= l.size; first++ {
+			rest := g.bodies(top, l.size-first)
+			for _, s := range g.stmtsOf(top, first) {
+				for _, tl := range rest {
+					if stopped != nil && stopped() {
+						return
+					}
+					body := append([]*node{s}, tl...)
+					if !hasLoopBody(body) {
+						continue
+					}
+					var kb strings.Builder
+					encBody(&kb, body)
+					for _, mode := range l.modes {
+						emit("C"+cModeTag[mode]+"/"+l.al.name+"/"+itoa(l.size)+"/"+kb.String(), body, l.size, mode)
+					}
+				}
+			}
+		}
+	}
+}
+
+func runCLate(t *vlib.T) {
+	cLateEach(t.Thorough(), t.Stopped, func(key string, body []*node, size, mode int) {
+		t.Case(key, func() *vlib.Outcome { return cCase(body, size, mode) })
+	})
+}
+
+func cLateBoundsDoc(th bool) string {
+	var p []string
+	for _, l := range cLateLayers(th) {
+		m := "set form"
+		if len(l.modes) == 2 {
+			m = "set form and do form"
+		} else if l.modes[0] == cModeLateDo {
+			m = "do form"
+		}
+		p = append(p, fmt.Sprintf("%s/%d (%s)", l.al.name, l.size, m))
+	}
+	return "late-probe variant (inside loop bodies loop.* is printed only after the last statement of each body, so sets, ifs and inner loops stand before the reads): every tree with a non-empty loop body of the layers " + strings.Join(p, ", ")
 }
 
 // cCount reports the number of trees per layer (development aid: C09_COUNT=1).
@@ -621,19 +734,35 @@ func cCount(th bool) {
 		}
 		fmt.Printf("layer %s size %d: %d trees\n", l.al.name, l.size, n)
 	}
+	late := map[string]int{}
+	var order []string
+	cLateEach(th, nil, func(key string, body []*node, size, mode int) {
+		k := key[:strings.LastIndex(key, "/")]
+		if late[k] == 0 {
+			order = append(order, k)
+		}
+		late[k]++
+	})
+	for _, k := range order {
+		fmt.Printf("late layer %s: %d cases\n", k, late[k])
+	}
+	fmt.Printf("G: %d cases\n", gCount(th))
 }
 
-func cCase(body []*node, size int) *vlib.Outcome {
+func cCase(body []*node, size int, mode int) *vlib.Outcome {
 	var sb strings.Builder
-	printBody(&sb, body, nil, false)
+	printBody(&sb, body, nil, false, mode)
 	src := sb.String()
-	m := &machine{budget: cOutputBudget}
+	m := &machine{budget: cOutputBudget, mode: mode}
 	m.run(body, false)
 	if m.out.Len() > cOutputBudget {
 		return &vlib.Outcome{Class: "C:skipped-output-too-large", Counters: map[string]int64{"skipped_output_over_budget": 1}}
 	}
 	ctx := cContext()
-	got, _ := render(src, ctx)
+	got, parseErr := render(src, ctx)
+	if parseErr && mode == cModeLateDo { // a `do name = expr` the parser rejects is a don't-care (see family D)
+		return &vlib.Outcome{Class: "C:do:rejected-by-parser", Counters: map[string]int64{"renders": 1}}
+	}
 	it := "0"
 	switch {
 	case m.iters > 8:
@@ -644,5 +773,8 @@ func cCase(body []*node, size int) *vlib.Outcome {
 		it = "1-2"
 	}
 	cls := fmt.Sprintf("C:n%d:depth%d:iters%s:forelse%v:pick%v", size, m.depth, it, m.elses > 0, m.picks > 0)
+	if mode != cModeAll {
+		cls = "C" + cModeTag[mode] + cls[1:]
+	}
 	return verdict("C", src, ctx, got, m.out.String(), m.iters > 0 || m.picks > 0, cls)
 }
